@@ -38,6 +38,17 @@ THEOREMS = [
     "Typedpy.C09.required_not_mutated",
     "Typedpy.C09.emitted_required_example",
     "Typedpy.C09.roundtrip_example",
+    "Typedpy.C09.expr_tokens",
+    "Typedpy.C09.expr_parses",
+    "Typedpy.C09.field_code_wf",
+    "Typedpy.C09.nat_literal",
+    "Typedpy.C09.emitted_module_tokens",
+    "Typedpy.C09.emitted_module_accepted_partial",
+    "Typedpy.C09.exOra_ok",
+    "Typedpy.C09.counterexample_name_not_identifier",
+    "Typedpy.C09.counterexample_description_nul",
+    "Typedpy.C09.always_compiles_statement_false",
+    "Typedpy.C09.accepted_example",
 ]
 RULE = ("schemas from a recursive generator over the keyword set (type, properties, required, additionalProperties, "
         "items as schema/list, uniqueItems, additionalItems, min/max*, multiplesOf, pattern, enum, allOf/anyOf/oneOf/not, "
